@@ -471,6 +471,16 @@ func genW(c *Ctx) {
 			nO := len(sim.Catalog[m]().Description().Outputs)
 			if g.States == nil || c.R.Chance(0.4) {
 				w.Init = true
+				// InitialiseStates(n) sizes the state array from cell 0 (known finding KF-C05-*-InitialiseStates-row-width:
+				// a wider later cell overlaps its neighbour's row, schedule-dependent). The statement of C04 is about Run on
+				// a given states array, so with library-initialised states all cells get cell 0's width-determining parameter.
+				if wp, ok := stateWidthParam[m]; ok && nSets > 1 {
+					for s := 1; s < nSets; s++ {
+						cols[s][wp] = cols[0][wp]
+					}
+					w.Params = buildParams(spec, cols)
+					c.Stats.Count("init_with_equalised_state_width")
+				}
 			} else {
 				width := 0
 				w.States = make([][]float64, N)
@@ -520,6 +530,9 @@ func genW(c *Ctx) {
 		}
 	}
 }
+
+// parameter (index in the column) that determines the width of a model's state row
+var stateWidthParam = map[string]int{"GR4J": 3 /* x4 */, "Lag": 0 /* timeLag */}
 
 func gcd(a, b int) int {
 	for b != 0 {
